@@ -258,6 +258,42 @@ func TestVerifCLI(t *testing.T) {
 			out.Emit(ev)
 		}
 	}
+	cliProbeJSONText(out, bin, root)
+}
+
+// cliProbeJSONText re-observes the recorded finding C19-json-text-not-utf8: the JSON report carries the text as a JSON
+// string, and encoding/json replaces every byte that is not valid UTF-8 by U+FFFD.
+func cliProbeJSONText(out *vuWriter, bin, root string) {
+	dir := filepath.Join(root, "probe")
+	os.MkdirAll(dir, 0755)
+	content := append([]byte("Copyright \xa9 2020 Foo Bar\n\n"), cliRead("License/MIT/pristine.txt")...)
+	file := filepath.Join(dir, "latin1.txt")
+	ioutil.WriteFile(file, content, 0644)
+	jf := filepath.Join(root, "probe.json")
+	exec.Command(bin, "-json", jf, "-include_text", file).Run()
+	raw, _ := ioutil.ReadFile(jf)
+	var jr []struct {
+		Classifications []struct {
+			StartLine, EndLine int
+			Text               string
+		}
+	}
+	json.Unmarshal(raw, &jr)
+	observed, deviates, seen := "", false, false
+	for _, f := range jr {
+		for _, c := range f.Classifications {
+			if c.StartLine == 1 {
+				seen = true
+				observed = fmt.Sprintf("%q", c.Text)
+				deviates = c.Text != cliLinesOf(content, c.StartLine, c.EndLine)
+			}
+		}
+	}
+	if !seen {
+		observed, deviates = "no classification on line 1 in the JSON report", false
+	}
+	out.Emit(map[string]interface{}{"ev": "probe", "id": "C19-json-text-not-utf8", "input": "Copyright \\xa9 2020 Foo Bar + MIT (the notice line holds a Latin-1 byte)",
+		"observed": observed, "ideal": fmt.Sprintf("%q", cliLinesOf(content, 1, 1)), "deviates": deviates})
 }
 
 func raceFirst(s string) string {
